@@ -129,6 +129,12 @@ func (s *Type) Publish(pkt *mqttp.Publish, grantedQoS mqttp.QosType, ops mqttp.S
 	default:
 	}
 
+	if pkt.Version() < mqttp.ProtocolV50 && s.Version >= mqttp.ProtocolV50 {
+		// a packet cloned from a pre-v5 publisher has no storage for properties, setting one
+		// (subscription identifier, topic alias, expiry) would write into a nil map
+		pkt.PropertiesDiscard()
+	}
+
 	pkt.SetVersion(s.Version)
 
 	var err error
